@@ -23,6 +23,16 @@ class Found(Exception):
     """Raised inside a Hypothesis test body when an unlisted discrepancy is seen."""
 
 
+class CaseTimeout(BaseException):
+    """Raised by the watchdog inside a case (BaseException so that oracle.lib does not turn it into data)."""
+
+
+def case_time_limit(tier):
+    """Seconds one case may take.  On the unchanged tree the slowest cases need seconds (a few tens under full load);
+    the limit is two orders of magnitude above that, so it only triggers when the code under test does not return."""
+    return int(os.environ.get("VF_CASE_TIMEOUT", "600" if tier == "quick" else "1500"))
+
+
 class Sub:
     """One sub-check of a property.
 
@@ -151,6 +161,8 @@ def _run_shard(job):
             for i, case in enumerate(cases):
                 if not job.get("opt") and i % job["nshards"] != job["shard"]:
                     continue
+                if st.timed_out:
+                    break
                 st.evaluate(case, collect=True)
         if sub.gen is not None:
             _run_hypothesis(sub, st, job)
@@ -191,13 +203,14 @@ class _ShardState:
         self.known = collections.Counter()
         self.tolerated = set()
         self.harness = None
+        self.timed_out = False
         self.fail_fast_after = None   # time after which the body fails without evaluating
         self.current_kind = None
 
     def evaluate(self, case, collect=False):
         """Run the oracle on a case.  Returns the first untolerated (kind, detail) or None."""
         self.evaluations += 1
-        discs = self.sub.check(case)
+        discs = self._check_with_watchdog(case)
         try:
             nt = bool(self.sub.nontrivial(case))
         except Exception:  # noqa: BLE001
@@ -231,6 +244,28 @@ class _ShardState:
                 first = (kind, detail)
         return None if collect else first
 
+    def _check_with_watchdog(self, case):
+        import signal
+        limit = case_time_limit(self.job["tier"])
+
+        def on_alarm(signum, frame):
+            raise CaseTimeout()
+        try:
+            old = signal.signal(signal.SIGALRM, on_alarm)
+        except (ValueError, AttributeError):          # not the main thread / no SIGALRM: run unguarded
+            return self.sub.check(case)
+        signal.alarm(limit)
+        try:
+            return self.sub.check(case)
+        except CaseTimeout:
+            self.timed_out = True          # no further case of this shard is run (each could hang again)
+            return [(f"{self.job['pid']}.did-not-return-within-{limit}s",
+                     "the code under test was still running on this case when the watchdog fired (cases of this "
+                     "sub-check take seconds on the unchanged tree)")]
+        finally:
+            signal.alarm(0)
+            signal.signal(signal.SIGALRM, old)
+
     def result(self):
         return {"evaluations": self.evaluations, "digests": sorted(self.digests),
                 "classes": dict(self.classes), "samples": self.samples,
@@ -261,7 +296,7 @@ def _run_hypothesis(sub, st, job):
                   phases=[Phase.generate, Phase.shrink], print_blob=False)
         @given(strategy)
         def body(case):
-            if st.fail_fast_after is not None and time.time() > st.fail_fast_after:
+            if st.timed_out or (st.fail_fast_after is not None and time.time() > st.fail_fast_after):
                 raise Found(st.current_kind)
             try:
                 hit = st.evaluate(case)
@@ -294,7 +329,7 @@ def _run_hypothesis(sub, st, job):
             if st.current_kind is None:
                 st.harness = traceback.format_exc()
                 return
-        if st.harness is not None:
+        if st.harness is not None or st.timed_out:
             return
         if st.current_kind is None:
             return                      # clean round: nothing untolerated left
@@ -469,7 +504,8 @@ def _shorten(case, limit=1500):
 
 def run_case(prop, sub_name, case):
     sub = next(s for s in prop.SUBS if s.name == sub_name)
-    return sub.check(case)
+    st = _ShardState(sub, [], {"pid": prop.ID, "tier": "quick", "sub": sub_name})
+    return st._check_with_watchdog(case)
 
 
 def run_regress(pid, prop, fnds):
